@@ -232,6 +232,18 @@ def digOutputs (doc : Xml) : List Signal :=
 
 def digTests (doc : Xml) : List TestDesc := (visualElements doc ["Testcase"]).filterMap extractTest
 
+/-- names of the virtual signals a test source declares (`ParsedTestCase::declared_names` of the parsed source; none
+if the source does not parse) -/
+def declaredNames (src : String) : List String :=
+  match parseTest src.toList with
+  | .ok p => p.virt.map (·.1)
+  | _ => []
+
+/-- the header names of one test that must be pins of the circuit: not the `_out` side of a bidirectional signal,
+and not a virtual signal the test declares itself -/
+def pinNamesOf (signals : List Signal) (t : TestDesc) (names : List String) : List String :=
+  (classifyNames signals names).2.filter (fun n => !((declaredNames t.source).contains n))
+
 /-- the second half of `dig::File::parse`: header scan, missing-signal check, bidirectional rewrite -/
 def digAssemble (inputs outputs : List Signal) (tests : List TestDesc) : Res DigErr DigFile :=
   let signals := inputs ++ outputs
@@ -239,7 +251,8 @@ def digAssemble (inputs outputs : List Signal) (tests : List TestDesc) : Res Dig
   | none => .err .emptyTest
   | some hdrs =>
     let cl := classifyNames signals hdrs.flatten
-    let missing := cl.2.filter (fun n => !(signals.any (fun s => s.name == n)))
+    let missing := (((tests.zip hdrs).map (fun p => pinNamesOf signals p.1 p.2)).flatten).filter
+      (fun n => !(signals.any (fun s => s.name == n)))
     if !missing.isEmpty then .err (.missingSignals missing)
     else
       match makeAllBidirectional (dedupNames cl.1) signals with
